@@ -5,6 +5,7 @@ import (
 	"fmt"
 	"go/ast"
 	"go/types"
+	"os"
 	"regexp"
 	"sort"
 	"strconv"
@@ -185,28 +186,32 @@ func extractStateRows(c *core.Ctx, backendName, pkgRel string, roots []string) (
 		return nil, []string{"package not found"}
 	}
 	rowsOf := map[string][]gee.Row{}
-	exOf := map[string]*gee.Extractor{}
 	declOf := map[string]*ast.FuncDecl{}
 	for _, f := range p.Syntax {
 		for _, dd := range f.Decls {
 			if fd, ok := dd.(*ast.FuncDecl); ok && fd.Body != nil && fd.Recv == nil {
-				x := &gee.Extractor{Info: p.TypesInfo, Fset: c.Fset}
-				rowsOf[fd.Name.Name] = x.Extract(fd.Name.Name, fd)
-				exOf[fd.Name.Name] = x
 				declOf[fd.Name.Name] = fd
 			}
 		}
 	}
-	hasState := func(fn string) bool {
-		for _, r := range rowsOf[fn] {
-			if r.Kind == "emit" && stateTmplRe.MatchString(r.Tmpl) {
-				return true
-			}
+	declByObj := func(f *types.Func) *ast.FuncDecl {
+		if f == nil || f.Pkg() != p.Types {
+			return nil
 		}
-		return false
+		if d := declOf[f.Name()]; d != nil && p.TypesInfo.Defs[d.Name] == types.Object(f) {
+			return d
+		}
+		return nil
 	}
-	var visit func(fn string, env map[string]affine, chain string, depth int)
-	visit = func(fn string, env map[string]affine, chain string, depth int) {
+	for name, fd := range declOf {
+		x := &gee.Extractor{Info: p.TypesInfo, Fset: c.Fset, Decl: declByObj}
+		rowsOf[name] = x.Extract(name, fd)
+	}
+	// visit expands a function in the context of a call site: ctxGuards/ctxLoops are the guards and
+	// loops under which it is called, env binds its integer parameters to affine forms and cenv its
+	// other parameters to the constants passed
+	var visit func(fn string, env map[string]affine, cenv map[string]string, ctxGuards, ctxLoops []string, chain string, depth int)
+	visit = func(fn string, env map[string]affine, cenv map[string]string, ctxGuards, ctxLoops []string, chain string, depth int) {
 		if depth > 4 {
 			return
 		}
@@ -219,57 +224,130 @@ func extractStateRows(c *core.Ctx, backendName, pkgRel string, roots []string) (
 			}
 			return "", false
 		}
-		for _, r := range rows {
-			if r.Kind != "emit" || !stateTmplRe.MatchString(r.Tmpl) {
-				continue
-			}
-			// only emissions with %d arguments or literal state numbers matter
-			nd := strings.Count(r.Tmpl, "%d")
-			var forms []string
-			if nd > 0 {
-				// positions of %d among the verbs
-				verbs := regexp.MustCompile(`%[a-zA-Z]`).FindAllString(r.Tmpl, -1)
-				for vi, v := range verbs {
-					if v == "%d" && vi < len(r.Args) {
-						a := newAffEval(r.Args[vi], env, lets).expr()
-						forms = append(forms, a.String())
-						if !a.ok {
-							problems = append(problems, fmt.Sprintf("%s: cannot reduce %q to an affine form (%s)", r.PosStr, r.Args[vi], a.why))
-						}
-					}
+		substGuards := func(gs []string) []string {
+			var out []string
+			for _, g := range gs {
+				// a guard that is just a constant-bound boolean parameter is decided at the call site
+				name, neg := g, false
+				if strings.HasPrefix(g, "!(") && strings.HasSuffix(g, ")") {
+					name, neg = g[2:len(g)-1], true
 				}
+				if v, ok := cenv[name]; ok && (v == "true" || v == "false") {
+					if (v == "true") == neg {
+						out = append(out, "⊥")
+					}
+					continue
+				}
+				out = append(out, g)
 			}
-			out = append(out, stateRow{Backend: backendName, Chain: chain, Guards: normGuards(r.Guards, r.Loop), Tmpl: strings.TrimSpace(r.Tmpl), Forms: forms, pos: r})
+			return out
 		}
-		// descend into helpers that emit state text
-		d := declOf[fn]
-		x := exOf[fn]
-		for _, cs := range c.Calls(d) {
-			if cs.Callee == nil || cs.Callee.Pkg() != p.Types {
-				continue
-			}
-			callee := cs.Callee.Name()
-			if callee == fn || !hasStateDeep(callee, rowsOf, declOf, c, p.Types, map[string]bool{}) {
-				continue
-			}
-			_ = hasState
-			cd := declOf[callee]
-			if cd == nil {
-				continue
-			}
-			sub := map[string]affine{}
-			pi := 0
-			for _, fl := range cd.Type.Params.List {
-				for _, nm := range fl.Names {
-					if pi < len(cs.Call.Args) {
-						if b, ok := p.TypesInfo.TypeOf(cs.Call.Args[pi]).Underlying().(*types.Basic); ok && b.Info()&types.IsInteger != 0 {
-							sub[nm.Name] = newAffEval(x.Canon(cs.Call.Args[pi]), env, lets).expr()
+		// emitState records one state-machine emission; a %d argument that is a variable with several
+		// guarded definitions (`next = a` in one branch, `next = b` in the other) yields one row per
+		// definition, under the guards of that definition
+		var emitState func(r gee.Row, gs, ctxGuards, ctxLoops []string, env map[string]affine, cenv map[string]string, rows []gee.Row, chain string)
+		emitState = func(r gee.Row, gs, ctxGuards, ctxLoops []string, env map[string]affine, cenv map[string]string, rows []gee.Row, chain string) {
+			tmpl, args := inlineConstantArgs(r.Tmpl, r.Args, cenv)
+			verbs := verbRe.FindAllString(tmpl, -1)
+			// multi-definition variables among the %d arguments
+			for vi, v := range verbs {
+				if v != "%d" || vi >= len(args) {
+					continue
+				}
+				for _, sym := range affSymRe.FindAllString(args[vi], -1) {
+					var defs []gee.Row
+					for _, l := range rows {
+						if l.Kind == "let:"+sym {
+							defs = append(defs, l)
 						}
 					}
-					pi++
+					if len(defs) < 2 {
+						continue
+					}
+					for _, d := range defs {
+						if contradicts(d.Guards, r.Guards) {
+							continue
+						}
+						e := r
+						e.Tmpl = tmpl
+						e.Args = append([]string(nil), args...)
+						e.Args[vi] = strings.ReplaceAll(args[vi], sym, "("+strings.TrimPrefix(d.Tmpl, "EXPR:")+")")
+						e.Guards = append(append([]string(nil), r.Guards...), guardsBeyond(d, r.Guards)...)
+						emitState(e, substGuards(e.Guards), ctxGuards, ctxLoops, env, cenv, rows, chain)
+					}
+					return
 				}
 			}
-			visit(callee, sub, chain+">"+callee+"("+affEnvStr(sub)+")", depth+1)
+			allGuards := append(append([]string(nil), ctxGuards...), gs...)
+			allLoops := append(append([]string(nil), ctxLoops...), r.Loop...)
+			env = withLoopIndex(env, r)
+			var forms []string
+			for vi, v := range verbs {
+				if v == "%d" && vi < len(args) {
+					a := newAffEval(args[vi], env, lets).expr()
+					forms = append(forms, a.String())
+					if !a.ok {
+						problems = append(problems, fmt.Sprintf("%s: cannot reduce %q to an affine form (%s)", r.PosStr, args[vi], a.why))
+					}
+				}
+			}
+			out = append(out, stateRow{Backend: backendName, Chain: chain, Guards: normGuards(allGuards, allLoops, env, lets), Tmpl: strings.TrimSpace(tmpl), Forms: forms, pos: r})
+		}
+		for _, r := range rows {
+			gs := substGuards(r.Guards)
+			dead := false
+			for _, g := range gs {
+				dead = dead || g == "⊥"
+			}
+			if dead {
+				continue
+			}
+			allGuards := append(append([]string(nil), ctxGuards...), gs...)
+			allLoops := append(append([]string(nil), ctxLoops...), r.Loop...)
+			// an emission of a string variable stands for the templates assigned to that variable
+			if r.Kind == "emit" && strings.HasPrefix(r.Tmpl, "VAR:") {
+				name := strings.TrimPrefix(r.Tmpl, "VAR:")
+				for _, a := range rows {
+					if a.Kind == "assign:"+name && stateTmplRe.MatchString(a.Tmpl) && !contradicts(a.Guards, r.Guards) {
+						e := r
+						e.Tmpl, e.Args = a.Tmpl, a.Args
+						e.Guards = append(append([]string(nil), r.Guards...), guardsBeyond(a, r.Guards)...)
+						emitState(e, substGuards(e.Guards), ctxGuards, ctxLoops, env, cenv, rows, chain)
+					}
+				}
+				continue
+			}
+			switch {
+			case r.Kind == "emit" && stateTmplRe.MatchString(r.Tmpl):
+				emitState(r, gs, ctxGuards, ctxLoops, env, cenv, rows, chain)
+			case r.Kind == "call":
+				callee := r.Tmpl
+				cd := declOf[callee]
+				if cd == nil || callee == fn || !hasStateDeep(callee, rowsOf, map[string]bool{}) {
+					continue
+				}
+				env := withLoopIndex(env, r)
+				sub := map[string]affine{}
+				csub := map[string]string{}
+				pi := 0
+				for _, fl := range cd.Type.Params.List {
+					for _, nm := range fl.Names {
+						if pi < len(r.Args) {
+							arg := r.Args[pi]
+							if v, ok := cenv[arg]; ok {
+								arg = v
+							}
+							if b, ok := p.TypesInfo.TypeOf(fl.Type).Underlying().(*types.Basic); ok && b.Info()&types.IsInteger != 0 {
+								sub[nm.Name] = newAffEval(arg, env, lets).expr()
+							} else if arg == "true" || arg == "false" || (strings.HasPrefix(arg, "\"") && strings.HasSuffix(arg, "\"")) {
+								csub[nm.Name] = arg
+							}
+						}
+						pi++
+					}
+				}
+				visit(callee, sub, csub, allGuards, allLoops, chain+">"+callee+"("+affEnvStr(sub)+")", depth+1)
+			}
 		}
 	}
 	for _, r := range roots {
@@ -277,12 +355,32 @@ func extractStateRows(c *core.Ctx, backendName, pkgRel string, roots []string) (
 			problems = append(problems, "root function "+r+" not found")
 			continue
 		}
-		visit(r, map[string]affine{}, r, 0)
+		visit(r, map[string]affine{}, map[string]string{}, nil, nil, r, 0)
 	}
 	return out, problems
 }
 
-func hasStateDeep(fn string, rowsOf map[string][]gee.Row, declOf map[string]*ast.FuncDecl, c *core.Ctx, pkg *types.Package, seen map[string]bool) bool {
+// withLoopIndex binds the index variable of an enclosing loop over the protocol's steps to the
+// affine form i, whatever the variable is called.
+func withLoopIndex(env map[string]affine, r gee.Row) map[string]affine {
+	out := env
+	for k, l := range r.Loop {
+		if strings.HasSuffix(l, ".Sequence") && k < len(r.LoopIx) && r.LoopIx[k] != "" && r.LoopIx[k] != "i" {
+			if _, has := env[r.LoopIx[k]]; !has {
+				if &out == &env || len(out) == len(env) {
+					out = map[string]affine{}
+					for kk, v := range env {
+						out[kk] = v
+					}
+				}
+				out[r.LoopIx[k]] = affine{i: 1, ok: true}
+			}
+		}
+	}
+	return out
+}
+
+func hasStateDeep(fn string, rowsOf map[string][]gee.Row, seen map[string]bool) bool {
 	if seen[fn] {
 		return false
 	}
@@ -291,17 +389,42 @@ func hasStateDeep(fn string, rowsOf map[string][]gee.Row, declOf map[string]*ast
 		if r.Kind == "emit" && stateTmplRe.MatchString(r.Tmpl) {
 			return true
 		}
-	}
-	d := declOf[fn]
-	if d == nil {
-		return false
-	}
-	for _, cs := range c.Calls(d) {
-		if cs.Callee != nil && cs.Callee.Pkg() == pkg && hasStateDeep(cs.Callee.Name(), rowsOf, declOf, c, pkg, seen) {
+		if r.Kind == "call" && hasStateDeep(r.Tmpl, rowsOf, seen) {
 			return true
 		}
 	}
 	return false
+}
+
+var verbRe = regexp.MustCompile(`%[a-zA-Z]`)
+var affSymRe = regexp.MustCompile(`\$[A-Za-z_]\w*`)
+
+// inlineConstantArgs puts constant arguments (true/false, numbers, quoted strings, or parameters
+// bound to such constants at the call site) into the template text, so that
+// Fprintf("%s(%d, %t, state_)", name, i, true) and Fprintf("%s(%d, true, state_)", name, i) agree.
+func inlineConstantArgs(tmpl string, args []string, cenv map[string]string) (string, []string) {
+	var outArgs []string
+	vi := 0
+	res := verbRe.ReplaceAllStringFunc(tmpl, func(v string) string {
+		if vi >= len(args) {
+			vi++
+			return v
+		}
+		a := args[vi]
+		vi++
+		if c, ok := cenv[a]; ok {
+			a = c
+		}
+		if v == "%t" && (a == "true" || a == "false") {
+			return a
+		}
+		if v == "%s" && len(a) >= 2 && strings.HasPrefix(a, "\"") && strings.HasSuffix(a, "\"") {
+			return a[1 : len(a)-1]
+		}
+		outArgs = append(outArgs, a)
+		return v
+	})
+	return res, outArgs
 }
 
 func affEnvStr(env map[string]affine) string {
@@ -319,7 +442,9 @@ func affEnvStr(env map[string]affine) string {
 
 // normGuards keeps the guards that distinguish state-machine rows: stream/non-stream,
 // batch overload, previous-step conditions, loop membership.
-func normGuards(gs []string, loops []string) []string {
+var seqIndexRe = regexp.MustCompile(`ProtocolDefinition\.Sequence\[([^\[\]]*)\]`)
+
+func normGuards(gs []string, loops []string, env map[string]affine, lets func(string) (string, bool)) []string {
 	var out []string
 	for _, l := range loops {
 		if strings.HasSuffix(l, ".Sequence") {
@@ -328,9 +453,95 @@ func normGuards(gs []string, loops []string) []string {
 	}
 	for _, g := range gs {
 		g = strings.ReplaceAll(g, "dsl.", "")
-		out = append(out, g)
+		// the step a guard talks about, independent of how it is reached: the range variable,
+		// p.Sequence[i], a helper's p.Sequence[stepIndex] with stepIndex bound at the call site
+		g = seqIndexRe.ReplaceAllStringFunc(g, func(m string) string {
+			idx := seqIndexRe.FindStringSubmatch(m)[1]
+			a := newAffEval(idx, env, lets).expr()
+			if a.ok && a.i == 0 && a.n == 1 {
+				if a.c == 0 {
+					return "ProtocolStep[n]"
+				}
+				return fmt.Sprintf("ProtocolStep[n%+d]", a.c)
+			}
+			if a.ok && a.i == 1 && a.n == 0 {
+				switch {
+				case a.c == 0:
+					return "ProtocolStep"
+				case a.c > 0:
+					return fmt.Sprintf("ProtocolStep[+%d]", a.c)
+				default:
+					return fmt.Sprintf("ProtocolStep[%d]", a.c)
+				}
+			}
+			return m
+		})
+		out = append(out, normIndexComparisons(g, env, lets))
 	}
-	return out
+	sort.Strings(out)
+	return dedup(out)
+}
+
+var cmpRe = regexp.MustCompile(`^([^&|!=<>]+?) (>=|<=|>|<|==|!=) ([^&|!=<>]+)$`)
+
+// normIndexComparisons rewrites comparisons between affine forms of the step index
+// (`prevStepIndex >= 0` with prevStepIndex = i-1, `i > 0`, `0 < i`) into `i >= k` / `i <= k` / ...
+// so that the name of a helper parameter or the side a constant is written on does not matter.
+func normIndexComparisons(g string, env map[string]affine, lets func(string) (string, bool)) string {
+	neg := false
+	inner := g
+	if strings.HasPrefix(g, "!(") && strings.HasSuffix(g, ")") {
+		neg = true
+		inner = g[2 : len(g)-1]
+	}
+	sep := " && "
+	parts := strings.Split(inner, sep)
+	if len(parts) == 1 {
+		sep = " || "
+		parts = strings.Split(inner, sep)
+	}
+	for k, part := range parts {
+		m := cmpRe.FindStringSubmatch(part)
+		if m == nil {
+			continue
+		}
+		l := newAffEval(m[1], env, lets).expr()
+		r := newAffEval(m[3], env, lets).expr()
+		if !l.ok || !r.ok {
+			continue
+		}
+		// bring to  (a*v) op c  with a > 0, v = i or n
+		v := "i"
+		a, cst, op := l.i-r.i, r.c-l.c, m[2]
+		if a == 0 {
+			v = "n"
+			a = l.n - r.n
+		} else if l.n-r.n != 0 {
+			continue
+		}
+		if a == 0 {
+			continue
+		}
+		if a < 0 {
+			a, cst = -a, -cst
+			op = map[string]string{">=": "<=", "<=": ">=", ">": "<", "<": ">", "==": "==", "!=": "!="}[op]
+		}
+		if a != 1 {
+			continue
+		}
+		switch op {
+		case ">":
+			op, cst = ">=", cst+1
+		case "<":
+			op, cst = "<=", cst-1
+		}
+		parts[k] = fmt.Sprintf("%s %s %d", v, op, cst)
+	}
+	res := strings.Join(parts, sep)
+	if neg {
+		return "!(" + res + ")"
+	}
+	return res
 }
 
 func ruleStateMachine(c *core.Ctx) {
@@ -366,23 +577,27 @@ func ruleStateMachine(c *core.Ctx) {
 		}
 		want := map[string]int{}
 		desc := map[string]string{}
+		// rows are compared as a multiset of (guards, emitted text, state numbers): which function or
+		// helper prints a line, and in which order independent guards are tested, does not matter
 		for _, r := range ref[b.name] {
-			k := r.Chain + " | " + strings.Join(r.Guards, " ∧ ") + " | " + r.Tmpl + " | " + strings.Join(r.Forms, ",")
+			gs := append([]string(nil), r.Guards...)
+			sort.Strings(gs)
+			k := strings.Join(gs, " ∧ ") + " | " + r.Tmpl + " | " + strings.Join(r.Forms, ",")
 			want[k]++
 		}
 		got := map[string]int{}
 		for _, r := range rows {
-			k := r.Chain + " | " + strings.Join(r.Guards, " ∧ ") + " | " + r.Tmpl + " | " + strings.Join(r.Forms, ",")
+			k := strings.Join(r.Guards, " ∧ ") + " | " + r.Tmpl + " | " + strings.Join(r.Forms, ",")
 			got[k]++
 			desc[k] = r.pos.PosStr
-			key := fmt.Sprintf("%s/%s/%s [%s]", b.name, r.Chain, r.Tmpl, strings.Join(r.Guards, " ∧ "))
+			key := fmt.Sprintf("%s/%s [%s]", b.name, r.Tmpl, strings.Join(r.Guards, " ∧ "))
 			if got[k] <= want[k] {
 				c.OK(rule, key, r.pos.Pos, "state numbers "+strings.Join(r.Forms, ",")+" as in the reference state machine")
 			} else {
 				// find the nearest reference row with same chain+tmpl to explain
 				near := ""
 				for _, rr := range ref[b.name] {
-					if rr.Tmpl == r.Tmpl && rr.Chain == r.Chain {
+					if rr.Tmpl == r.Tmpl {
 						near = fmt.Sprintf(" (reference has forms %s under [%s])", strings.Join(rr.Forms, ","), strings.Join(rr.Guards, " ∧ "))
 					}
 				}
@@ -396,4 +611,18 @@ func ruleStateMachine(c *core.Ctx) {
 		}
 	}
 	c.Tables["state_machine"] = all
+	if dump := os.Getenv("VERIF_DUMP_STATEMACHINE"); dump != "" {
+		// development aid: write the extracted table in the reference format (reviewed before it is adopted)
+		outm := map[string]any{}
+		for k, rows := range all {
+			var rr []refRow
+			for _, r := range rows {
+				rr = append(rr, refRow{Chain: r.Chain, Guards: r.Guards, Tmpl: r.Tmpl, Forms: r.Forms})
+			}
+			outm[k] = rr
+		}
+		if b, err := json.MarshalIndent(outm, "", " "); err == nil {
+			_ = os.WriteFile(dump, b, 0644)
+		}
+	}
 }
